@@ -1,5 +1,5 @@
 (* Json.v -- model of the JSON (de)serialisation of microschc: __json__ / __from_json_object__ of
-   Buffer (binary/buffer.py), MatchMapping, FieldDescriptor, PacketDescriptor, RuleFieldDescriptor,
+   Buffer (binary/buffer.py), MatchMapping, FieldDescriptor, HeaderDescriptor, PacketDescriptor, RuleFieldDescriptor,
    RuleDescriptor (rfc8724.py) and Context (rfc8724extras.py), over a JSON tree.  json.dumps/loads,
    bytes.hex/fromhex and the str <-> enum conversions are trusted: a hex string is represented by
    the bytes it spells, an enum value by its member.  Buffers are the byte-level buffers of Buffer.v:
@@ -46,6 +46,7 @@ Inductive jtv := JTVbuf (b : buf) | JTVmap (forward : list (buf * buf)).
 Record jrfd := mkjrfd { j_id : fid; j_len : Z; j_pos : Z; j_dir : dir; j_tv : jtv; j_mo : mo; j_cda : cda }.
 Record jrule := mkjrule { jr_id : buf; jr_nature : nature; jr_fds : list jrfd }.
 Record jfield := mkjfield { jf_id : fid; jf_val : buf; jf_pos : Z }.
+Record jheader := mkjheader { jh_id : Z; jh_length : Z; jh_fields : list jfield }.
 Record jpdesc := mkjpdesc { jp_dir : dir; jp_fields : list jfield; jp_payload : buf; jp_raw : buf }.
 Record jcontext := mkjctx { jc_id : Z; jc_description : Z; jc_interface : Z; jc_parser : Z; jc_rules : list jrule }.
 
@@ -86,6 +87,18 @@ Definition field_to_json (f : jfield) : json :=
 Definition field_from_json (j : json) : res jfield :=
   do i <- jget j K_id ;; do jv <- jget j K_value ;; do v <- buf_from_json jv ;; do p <- jget j K_position ;;
   match i, p with JFid f, JNum n => Ok (mkjfield f v n) | _, _ => Exc TypeError end.
+
+(* HeaderDescriptor (what a header parser returns): id (a protocol name, interned), length, fields *)
+Definition header_to_json (h : jheader) : json :=
+  JObj [(K_id, JText (jh_id h)); (K_length, JNum (jh_length h)); (K_fields, JList (map field_to_json (jh_fields h)))].
+Definition header_from_json (j : json) : res jheader :=
+  do i <- jget j K_id ;; do n <- jget j K_length ;; do fs <- jget j K_fields ;;
+  match fs with
+  | JList l =>
+    do fl <- mapM field_from_json l ;;
+    match i, n with JText t, JNum n => Ok (mkjheader t n fl) | _, _ => Exc TypeError end
+  | _ => Exc TypeError
+  end.
 
 Definition pdesc_to_json (p : jpdesc) : json :=
   JObj [(K_direction, JDir (jp_dir p)); (K_fields, JList (map field_to_json (jp_fields p)));
